@@ -862,7 +862,6 @@ def strace_install(w, tags, skip, res):
                         fdmap[ret] = unescape(rm0.group(1))
                     if not re.search(r'O_WRONLY|O_RDWR|O_CREAT|O_TRUNC|O_APPEND', args):
                         continue
-                    fm = FD_RE.search(tail) or None
                     rm = re.match(r'<((?:[^<>\\]|\\.)*)>', tail)
                     if rm:
                         paths.append(unescape(rm.group(1)))
@@ -870,13 +869,11 @@ def strace_install(w, tags, skip, res):
                         s = STR_RE.search(args)
                         paths.append(os.path.join(cwd, unescape(s.group(1))) if s else '?')
                 elif call in MUT_CALLS:
-                    base = cwd
                     strs = [unescape(x) for x in STR_RE.findall(args)]
                     fds = FD_RE.findall(args)
                     if call in ('symlink', 'symlinkat'):
                         strs = strs[1:]          # first string is the link content, not a path that is written
-                    if call in ('rename', 'renameat', 'renameat2', 'link', 'linkat'):
-                        pass                     # both names are mutated / created
+                    # rename / link: both names count (one is removed or referenced, the other created)
                     dirbase = unescape(fds[0][1]) if fds else cwd
                     for s in strs:
                         pm = re.match(r'/proc/self/fd/(\d+)$', s)
